@@ -8,6 +8,19 @@ TB = ('rustc name/type resolution and MIR construction; pinned dependency crates
       '(typst_syntax::parse deterministic and total, error-free trees obey the grammar table; pretty renders text verbatim and indents by the sum of nest amounts)')
 
 CLAIMS = {
+    'C05': dict(
+        technique='guarded-by (dominating erroneous() edge), partial-operation inventory with discharge rules over MIR Assert terminators and panicking callees, loop-shape and size-change (descending recursion) analysis',
+        text='Every panic site in typstyle\'s own code reachable from a whole-document entry is an obligation discharged by a dominating kind/bound guard, a size provenance, a benign class or a '
+             'one-line axiom about parser output; refusal and fallback are decided by dominance; loops and recursive cycles are shown to make progress on the finite tree. Found and repaired F1/F2.',
+        design_ref='DESIGN.md §2 C05'),
+    'C13': dict(
+        technique='provenance of the caller range across calls (clamp-before-slice), dominance of the not-erroneous edge, provenance of the returned (range, text) pair, range-only partial-operation inventory',
+        text='No-panic for arbitrary ranges, refusal and range/text consistency are decided structurally on every path; the re-parse equivalence of the splice is behavioural and not decided. Found and repaired F3.',
+        design_ref='DESIGN.md §2 C13'),
+    'C19': dict(
+        technique='guarded-by conjunction on the single order-changing call, who-may-touch the item list, soundness obligations of the duplicate test, flag read-site count, clap default extraction',
+        text='Off => source order (no other reordering operation on nodes exists); on => a permutation gated on flag, no comments, no duplicate bound names; nothing else reads the flag.',
+        design_ref='DESIGN.md §2 C19'),
     'C11': dict(
         technique='provenance of every Ok payload + shape check of the post-processing loop over MIR (must-pass-through, single-exit loop)',
         text='Complete structural argument under the contracts of str::lines/str::trim_end: every accepted input is returned through a post-processor that '
